@@ -5,6 +5,7 @@ import (
 	"context"
 	"fmt"
 	"io"
+	"runtime"
 	"strings"
 	"sync"
 	"testing"
@@ -970,4 +971,136 @@ func TestC07Regress(t *testing.T) {
 		}
 	}
 	evid.For("C07").Case(true, "regress|D7", "regression-replay")
+}
+
+// TestC07WriteFault: the WRITING side's pooled compressors. Connection A (no context takeover
+// on its sending side, so it takes a compressor from the pool per message) loses its transport
+// while a compressed message is on its way out - after k bytes, k enumerated from "nothing" to
+// "all but the last byte", which with messages this small is always during the final flush.
+// Then B and C stream compressed messages with their chunks interleaved (B1 C1 B2 C2). Each
+// peer must receive exactly the message written on its own connection: whatever A's failed
+// write and its teardown did with its compressor must not hand one compressor to both.
+// One P, so that sync.Pool gives the object that was put last to whoever asks next.
+func TestC07WriteFault(t *testing.T) {
+	rec := evid.For("C07")
+	old := runtime.GOMAXPROCS(1)
+	defer runtime.GOMAXPROCS(old)
+	for _, modeName := range []string{"server/mode-no-ctx", "client/mode-no-ctx", "server/takeover"} {
+		var mode c03Mode
+		for _, m := range c03Modes {
+			if m.Name == modeName {
+				mode = m
+			}
+		}
+		for _, api := range []string{"write", "writer"} {
+			for _, k := range []int{0, 1, 2, 6, 14, 40, 100, 400, 1 << 20} {
+				desc := fmt.Sprintf("writefault|%s|%s|budget=%d", modeName, api, k)
+				var msg string
+				synctest.Test(t, func(t *testing.T) {
+					e := newEnv(t)
+					defer e.Teardown()
+					ctx := context.Background()
+					a, err := e.open(connSpec{Client: mode.Client, Mode: mode.Mode, Ext: mode.Ext, Threshold: 64})
+					if err != nil {
+						msg = "handshake A: " + err.Error()
+						return
+					}
+					a.Peer.start(e)
+					a.End.SetInBudget(int64(k))
+					amsg := tagged(1, 0, 3000)
+					var werr error
+					wd := e.Call(func() {
+						if api == "write" {
+							werr = a.C.Write(ctx, websocket.MessageBinary, amsg)
+							return
+						}
+						w, err := a.C.Writer(ctx, websocket.MessageBinary)
+						if err != nil {
+							werr = err
+							return
+						}
+						if _, werr = w.Write(amsg[:1500]); werr != nil {
+							return
+						}
+						if _, werr = w.Write(amsg[1500:]); werr != nil {
+							return
+						}
+						werr = w.Close()
+					})
+					synctest.Wait()
+					select {
+					case <-wd:
+					default:
+						a.End.Close() // the transport is lost with A's message half out
+						if !within(wd, 60*time.Second) {
+							msg = "A's write did not return after its transport was lost"
+							return
+						}
+					}
+					a.C.CloseNow()
+					open := func(name string) *libConn {
+						lc, err := e.open(connSpec{Client: mode.Client, Mode: mode.Mode, Ext: mode.Ext, Threshold: 64})
+						if err != nil {
+							msg = "handshake " + name + ": " + err.Error()
+							return nil
+						}
+						lc.Peer.start(e)
+						return lc
+					}
+					b, c := open("B"), open("C")
+					if b == nil || c == nil {
+						return
+					}
+					bm, cm := tagged(2, 0, 4000), tagged(3, 0, 4000)
+					wb, err1 := b.C.Writer(ctx, websocket.MessageBinary)
+					wc, err2 := c.C.Writer(ctx, websocket.MessageBinary)
+					if err1 != nil || err2 != nil {
+						msg = fmt.Sprintf("Writer on B / C failed: %v / %v", err1, err2)
+						return
+					}
+					for _, st := range []struct {
+						w io.WriteCloser
+						p []byte
+					}{{wb, bm[:2000]}, {wc, cm[:2000]}, {wb, bm[2000:]}, {wc, cm[2000:]}} {
+						if _, err := st.w.Write(st.p); err != nil {
+							msg = "a Write on B or C failed: " + err.Error()
+							return
+						}
+					}
+					if err := wb.Close(); err != nil {
+						msg = "B's Close failed: " + err.Error()
+						return
+					}
+					if err := wc.Close(); err != nil {
+						msg = "C's Close failed: " + err.Error()
+						return
+					}
+					synctest.Wait()
+					for _, x := range []struct {
+						name string
+						lc   *libConn
+						want []byte
+					}{{"B", b, bm}, {"C", c, cm}} {
+						rep, verr := ref.ValidateStream(x.lc.End.InRecording(), ref.StreamOpts{FromClient: mode.Client, Deflate: x.lc.Agreed.Deflate, Takeover: x.lc.Agreed.SenderTakeover(mode.Client)}, false)
+						if verr != nil {
+							msg = fmt.Sprintf("what connection %s emitted is not a well-formed stream: %v", x.name, verr)
+							return
+						}
+						if len(rep.Messages) != 1 || !bytes.Equal(rep.Messages[0].Payload, x.want) {
+							n := -1
+							if len(rep.Messages) > 0 {
+								n = len(rep.Messages[0].Payload)
+							}
+							msg = fmt.Sprintf("the peer of connection %s received %d message(s), the first of %d bytes; %s wrote one message of %d bytes (A's write failed with: %v)", x.name, len(rep.Messages), n, x.name, len(x.want), werr)
+							return
+						}
+					}
+				})
+				rec.Case(true, desc, "compressed-write-loses-its-transport-then-two-interleaved-compressed-writers")
+				if msg != "" {
+					failCase(t, "C07", desc, "%s", msg)
+				}
+			}
+		}
+	}
 }
